@@ -18,7 +18,7 @@ PBT = "property-based testing (Hypothesis), generated inputs against "
 add(
     "C13",
     PBT + "an integer-arithmetic / exact-rational oracle; plus exhaustive enumeration of all 10^6 microsecond values for the ms floor",
-    "Generated-input search over instants x offsets x spellings x durations x JSON data with an independent arithmetic oracle; the millisecond floor is enumerated completely over the microsecond field at fixed seconds. Sampling, not proof, over the 1970..2100 range.",
+    "Generated-input search over instants x offsets x spellings x durations x JSON data (a quarter of the cases with a value nested 120..900 levels deep, run with a fresh interpreter's stack budget) with an independent arithmetic oracle; the millisecond floor is enumerated completely over the microsecond field at fixed seconds. Sampling, not proof, over the 1970..2100 range.",
     "Trusts Python's datetime/timedelta/Fraction arithmetic, jsonschema + rfc3339-validator for the schema clause; offsets are whole minutes; |duration| <= 1e7 s.",
 )
 
@@ -109,8 +109,8 @@ add(
 add(
     "C19",
     PBT + "a frame oracle (everything but the owned keys unchanged) and a reference matcher built on re.search",
-    "Events x rule lists with overlapping rules, equal depths, empty regex, select_keys on missing/non-string values, unicode; categorize/tag values and the frame for all four transforms.",
-    "Python's re is shared; select_keys=[] not generated; URL component values not judged.",
+    "Events x rule lists with overlapping rules, equal depths, empty regex, select_keys on missing/non-string values, unicode, unrelated values nested 120..900 levels deep (categorize, tag, split_url_events; run with a fresh interpreter's stack budget); categorize/tag values and the frame for all four transforms.",
+    "Python's re is shared; select_keys=[] not generated; URL component values not judged; simplify_string is not given the deeply nested values (it deep-copies its input on the unchanged tree too).",
 )
 add(
     "C20",
